@@ -35,15 +35,17 @@ def build(p: dict[str, Any]) -> dict[str, Any]:
             rid += 1
             rows.append([str(tadd(start, sgn * step * dt)), float(np.round(rng.uniform(5, 10), 3)), float(np.round(rng.uniform(4, 8), 3)),
                          float(np.round(rng.uniform(0, 30), 2)), rid, float(np.round(rng.uniform(0, 9), 3))])
-    cols = ["release_time", "X", "Y", "Z", "rid", "wgt"]
+            if p.get("pvars", True):
+                rows[-1].append(str(tadd(start, -int(rng.integers(0, 10**6)))))
+    cols = ["release_time", "X", "Y", "Z", "rid", "wgt"] + (["hatch"] if p.get("pvars", True) else [])
     enc = p.get("enc", "f8")
     st_i = dict(rid="int", age="float")
     st_p = {}
     out_i = dict(pid="i4", X=enc, Y=enc, Z=enc, rid="i4", age=enc)
     out_p = {}
     if p.get("pvars", True):
-        st_p = dict(wgt="float", release_time="time")
-        out_p = dict(wgt="f8", release_time="f8")
+        st_p = dict(wgt="float", release_time="time", hatch="time")
+        out_p = dict(wgt="f8", release_time="f8", hatch="f8")
     else:
         st_i["wgt"] = "float"
         out_i["wgt"] = enc
